@@ -19,6 +19,7 @@ import (
 	"encoding/binary"
 	"encoding/hex"
 	"encoding/json"
+	"errors"
 	"fmt"
 	"math/big"
 	"os"
@@ -798,10 +799,13 @@ type backend struct {
 	rmLogsFeed     event.Feed
 	logsFeed       event.Feed
 	api            *filters.PublicFilterAPI
+	failSection    int64 // retrievals of this section fail (fault pass); -1: none
 }
 
+var errInjectedRetrieval = errors.New("injected bloom-bits retrieval failure")
+
 func newBackend(db aquadb.Database, size, sections uint64) *backend {
-	b := &backend{db: db, size: size, sections: sections, reqs: make(chan chan *bloombits.Retrieval), quit: make(chan struct{}), mux: new(event.TypeMux)}
+	b := &backend{db: db, size: size, sections: sections, reqs: make(chan chan *bloombits.Retrieval), quit: make(chan struct{}), mux: new(event.TypeMux), failSection: -1}
 	// aqua.startBloomHandlers with the section size as a parameter
 	for i := 0; i < 4; i++ {
 		go func() {
@@ -814,6 +818,10 @@ func newBackend(db aquadb.Database, size, sections uint64) *backend {
 					task.Bitsets = make([][]byte, len(task.Sections))
 					for i, section := range task.Sections {
 						head := core.GetCanonicalHash(b.db, (section+1)*b.size-1)
+						if int64(section) == atomic.LoadInt64(&b.failSection) {
+							task.Error = errInjectedRetrieval // what aqua/bloombits.go does when the vector cannot be read
+							continue
+						}
 						if compVector, err := core.GetBloomBits(b.db, task.Bit, section, head); err == nil {
 							if blob, err := bitutil.DecompressBytes(compVector, int(b.size)/8); err == nil {
 								task.Bitsets[i] = blob
@@ -1168,6 +1176,25 @@ func runQuery(b *backend, c *criteria, begin, end int, viaAPI bool) (logs []*typ
 			crit.ToBlock = big.NewInt(int64(end))
 		}
 		logs, err = b.api.GetLogs(context.Background(), crit)
+		if err != nil {
+			return
+		}
+		// the same criteria installed as a filter and polled twice (aqua_newFilter + aqua_getFilterLogs): every
+		// poll answers the whole query again. A poll that differs from GetLogs is returned as the result.
+		id, ferr := b.api.NewFilter(crit)
+		if ferr != nil {
+			return // NewFilter refuses some bound combinations (e.g. from = latest with a numbered end) by design
+		}
+		defer b.api.UninstallFilter(id)
+		for poll := 1; poll <= 2; poll++ {
+			l2, e2 := b.api.GetFilterLogs(context.Background(), id)
+			if e2 != nil {
+				return nil, fmt.Errorf("GetFilterLogs poll %d: %v", poll, e2), ""
+			}
+			if diffLogs(l2, logs) != "" {
+				return l2, nil, ""
+			}
+		}
 		return
 	}
 	// hand the filter its own copies of the criteria: it must not depend on aliasing
@@ -1583,6 +1610,43 @@ func part2(cfgs []chainCfg, deadline time.Time, shard, nshards int, col *collect
 						"criteria": c.String(), "ranges": "all (begin,end) in {-1,0..L+1}^2", "expected_for_whole_chain": logKeys(st.ch.expected(matches[ci], 0, ch.L-1))})
 				}
 				col.mu.Unlock()
+			})
+			// fault pass: the read of one indexed section's bit vectors fails. An indexed query over the whole
+			// chain then either reports an error or is complete; it never succeeds with logs missing.
+			var fjobs [][3]int
+			for si, st := range states {
+				for sec := 0; sec < st.k; sec++ {
+					for ci := 1; ci < len(crits); ci += 5 {
+						if (si+sec+ci)%nshards == shard {
+							fjobs = append(fjobs, [3]int{si, sec, ci})
+						}
+					}
+				}
+			}
+			ev.ParallelFor(len(fjobs), func(fi int) {
+				if time.Now().After(deadline) {
+					capped.Store(true)
+					return
+				}
+				st, sec, ci := states[fjobs[fi][0]], fjobs[fi][1], fjobs[fi][2]
+				fb := newBackend(st.b.db, uint64(st.size), uint64(st.k))
+				defer fb.close()
+				atomic.StoreInt64(&fb.failSection, int64(sec))
+				c := &crits[ci]
+				want := st.ch.expected(matches[ci], 0, ch.L-1)
+				got, err, pan := runQuery(fb, c, 0, ch.L-1, false)
+				col.mu.Lock()
+				col.res.Evals++
+				col.res.Counters["queries_with_failing_retrieval"]++
+				col.classes[fmt.Sprintf("query-fault/size=%d/err=%v", size, err != nil)] = struct{}{}
+				col.mu.Unlock()
+				if pan == "" && (err != nil || diffLogs(got, want) == "") {
+					return
+				}
+				d := st.detail(c, 0, ch.L-1, verdict{kind: "missing", got: logKeys(got), want: logKeys(want), panik: pan})
+				d["part"], d["failing_section"] = "query-fault", sec
+				d["msg"] = fmt.Sprintf("retrieval of section %d fails: the query reports success but returns %d of %d logs", sec, len(got), len(want))
+				col.violate(ev.Violation{Scenario: "log-query-retrieval-failure", Oracle: "error-or-complete", CaseID: fmt.Sprintf("size=%d", size), Detail: d}, ch.L*100+sec)
 			})
 			for _, st := range states {
 				st.b.close()
